@@ -930,3 +930,53 @@ Section Accessors.
       cbn [value_of]. now rewrite existsb_map.
   Qed.
 End Accessors.
+
+(* ---------- the expected header of a whole input, read entry by entry ---------- *)
+(* kept: exactly the first well-formed line of every key, at its 1-based number *)
+Lemma header_kept_iff lines p k v :
+  In (p, k, v) (fst (expected_header lines)) <->
+  exists i l, p = Z.of_nat i + 1 /\ nth_error lines i = Some l /\
+              classify l = WellFormed k v /\ ~ earlier_key lines i k.
+Proof.
+  unfold expected_header. rewrite expected_kept_iff. split.
+  - intros [i [l [Hp [Hn [Hc [_ He]]]]]]. exists i, l. repeat split; auto. lia.
+  - intros [i [l [Hp [Hn [Hc He]]]]]. exists i, l. repeat split; auto. lia.
+Qed.
+
+(* diagnostics: exactly the malformed lines (with their category) and the
+   well-formed lines whose key an earlier well-formed line has, at their
+   1-based number *)
+Lemma header_diag_iff lines d p :
+  In (d, p) (snd (expected_header lines)) <->
+  exists i l, p = Z.of_nat i + 1 /\ nth_error lines i = Some l /\
+    ((exists c, classify l = Malformed c /\ d = DMalformed c) \/
+     (exists k v, classify l = WellFormed k v /\ d = DDuplicate /\ earlier_key lines i k)).
+Proof.
+  unfold expected_header. rewrite expected_diag_iff. split.
+  - intros [i [l [Hp [Hn Hd]]]]. exists i, l. repeat split; auto; [lia|].
+    destruct Hd as [Hd|[k [v [Hc [Hd [[]|He]]]]]]; [now left|right; eauto].
+  - intros [i [l [Hp [Hn Hd]]]]. exists i, l. repeat split; auto; [lia|].
+    destruct Hd as [Hd|[k [v [Hc [Hd He]]]]]; [now left|right]. exists k, v. auto.
+Qed.
+
+Lemma header_in_line_order lines :
+  StronglySorted Z.lt (map kept_pos (fst (expected_header lines))) /\
+  StronglySorted Z.lt (map snd (snd (expected_header lines))) /\
+  (length (fst (expected_header lines)) + length (snd (expected_header lines)) = length lines)%nat.
+Proof.
+  destruct (expected_sorted lines 0 []) as [S1 [S2 [_ [_ L]]]]. auto.
+Qed.
+
+Lemma header_keys_nodup lines : NoDup (map kept_key (fst (expected_header lines))).
+Proof. apply expected_keys_nodup. Qed.
+
+(* every finished record has its own key and holds what `interpret` says *)
+Lemma final_rec_reflects lines p k v :
+  let K := fst (expected_header lines) in
+  In (p, k, v) K ->
+  exists hv, final_rec K (p, k, v) = (k, {| hkey := k; hval := hv |}) /\
+             reflects (interpret K k v) hv.
+Proof.
+  intros K Hin. exists (value_of (interpret K k v)). split; [reflexivity|].
+  apply reflects_interpret. eapply expected_kept_wf; eauto.
+Qed.
